@@ -340,3 +340,10 @@ pub fn incremental<R: std::io::Read>(r: &mut R, mut on_step: impl FnMut(&ParseSt
 pub fn ports_of(start: &peppi::game::Start) -> Vec<peppi::frame::PortOccupancy> {
 	peppi::game::port_occupancy(start)
 }
+
+/// Equality of two Game Start values that tolerates NaN floats (derived
+/// PartialEq would call two identical NaN-carrying blocks different): the raw
+/// blocks must be identical and the decoded values must render identically.
+pub fn same_start(a: &peppi::game::Start, b: &peppi::game::Start) -> bool {
+	a.bytes == b.bytes && format!("{:?}", a) == format!("{:?}", b)
+}
